@@ -9,6 +9,7 @@ import (
 	"github.com/mimecast/dtail/internal/io/dlog"
 	serverHandlers "github.com/mimecast/dtail/internal/server/handlers"
 	user "github.com/mimecast/dtail/internal/user/server"
+	"github.com/mimecast/dtail/internal/vhook"
 )
 
 // Serverless creates a server object directly without TCP.
@@ -108,6 +109,7 @@ func (s *Serverless) handle(ctx context.Context, cancel context.CancelFunc) erro
 
 	// Send all commands to client.
 	for _, command := range s.commands {
+		vhook.Point("cli.cmd.between")
 		dlog.Client.Debug("Sending command to serverless server", command)
 		if err := s.handler.SendMessage(command); err != nil {
 			dlog.Client.Debug(err)
